@@ -14,16 +14,32 @@ import (
 // Cases per tier: even indexes are fault-free (reported under the property they are registered for),
 // the workload and the fault are drawn from the case index.
 func Cases(tier string) int {
+	return baseCases(tier) + specialCases(tier)
+}
+
+func baseCases(tier string) int {
 	if tier == "thorough" {
 		return 32
 	}
 	return 4
 }
 
+// special cases (after the base ones): C03 a target that is down while discovery re-sends it, C06 a reload
+// followed by a sidecar that comes back on an empty volume, C04 targets whose bodies span several parser blocks
+func specialCases(tier string) int {
+	if tier == "thorough" {
+		return 8
+	}
+	return 2
+}
+
 // convergedNow: every configured target is listed by exactly one sidecar, in normal state, and that
 // sidecar's Prometheus has been given it (it is in the generated file) and scrapes it.
 func convergedNow(l *Loop, snap []map[int]Entry) (bool, string) {
 	for _, id := range l.Targets() {
+		if l.IsDown(id) || l.TrueTotal(id) >= l.Spec.MaxProc {
+			continue // not eligible (yet): nothing is demanded about it here
+		}
 		n, why := 0, ""
 		for i, m := range snap {
 			if e, ok := m[id]; ok {
@@ -109,6 +125,33 @@ func Run(w *core.WorkerCtx, k int, prop string) *core.CaseResult {
 		fault = []string{"restart-sidecar", "restart-coordinator", "shard-unreachable", "restart-sidecar+reload"}[k%4]
 	}
 	workload := []string{"steady", "add-target", "remove-target", "add-and-remove"}[(k/2+k)%4]
+	special := k >= baseCases(w.Tier)
+	downID := -1
+	if special && prop == "C03" {
+		// one target answers 503 from the start; while it is down the coordinator's configuration is reloaded
+		// (discovery re-sends every target); then it serves again: it has to be probed again and assigned
+		workload, downID = "down-then-up", r.Intn(nT)
+		spec.Down = []int{downID}
+	}
+	if special && prop == "C06" {
+		workload, fault = "steady", "reload-then-wipe-sidecar"
+	}
+	if prop == "C04" {
+		// bodies of 80-130 KB (the parsers read them in 64 KiB blocks), a process-series limit that two of them
+		// fit under and three do not, and one target that alone exceeds the limit although its kept series are few
+		workload, fault = "steady", "none"
+		if k%2 == 1 {
+			workload = "add-target"
+		}
+		spec = Spec{MaxHead: 1000000, MaxProc: 8000, NShards: 3, Interval: 150 * time.Millisecond, Sizes: map[int][2]int{}}
+		nT = 4 + r.Intn(2)
+		for i := 0; i < nT; i++ {
+			kept := 300 + r.Intn(1500)
+			spec.Sizes[i] = [2]int{kept, 2500 + r.Intn(1000) - kept}
+		}
+		spec.Sizes[nT] = [2]int{100, 8000 + r.Intn(2000)}
+		nT++
+	}
 	res.Sig = fmt.Sprintf("real-loop/%s/%s/%v", workload, fault, spec.Sizes)
 	dir := filepath.Join(w.Scratch, fmt.Sprintf("e7-%s-%d", prop, k))
 	defer os.RemoveAll(dir)
@@ -138,6 +181,33 @@ func Run(w *core.WorkerCtx, k int, prop string) *core.CaseResult {
 				return false
 			}
 			c := l.Cycles()
+			if prop == "C04" {
+				res.AddStat("real_loop_placement_snapshots", 1)
+				for i, m := range snap {
+					var sum int64
+					var ids []int
+					for id := range m {
+						if id < 0 {
+							continue
+						}
+						ids = append(ids, id)
+						sum += l.TrueTotal(id)
+						if l.TrueTotal(id) >= spec.MaxProc {
+							res.Violate("C04/real-loop/oversized-assigned", "%s: target %d serves %d samples, the process-series limit is %d, and shard %d lists it", phase, id, l.TrueTotal(id), spec.MaxProc, i)
+						}
+					}
+					sort.Ints(ids)
+					if sum >= spec.MaxProc {
+						res.Violate("C04/real-loop/over-process-limit", "%s: shard %d lists targets %v which really serve %d samples together, the process-series limit is %d (nothing here ever shrinks or grows)", phase, i, ids, sum, spec.MaxProc)
+					}
+					if len(ids) >= 2 {
+						res.AddStat("real_loop_shards_seen_with_several_big_targets", 1)
+					}
+				}
+				if len(res.Viol) > 0 {
+					return false
+				}
+			}
 			okNow, w2 := convergedNow(l, snap)
 			key := snapKey(snap)
 			if okNow && key == lastKey {
@@ -181,9 +251,30 @@ func Run(w *core.WorkerCtx, k int, prop string) *core.CaseResult {
 	// workload
 	next := nT
 	switch workload {
+	case "down-then-up":
+		var add map[int][2]int
+		if r.Intn(2) == 0 {
+			add = map[int][2]int{next: {10, 0}}
+		}
+		if err := l.Reconfigure(add, nil); err != nil {
+			res.Inconcl = err.Error()
+			return finish()
+		}
+		note("target %d has answered 503 since the start; configuration reloaded (added: %v), discovery re-sent every target", downID, add)
+		c0 := l.Cycles()
+		for l.Cycles() < c0+3 && time.Now().Before(watchdog) {
+			l.ScrapeAll()
+			time.Sleep(40 * time.Millisecond)
+		}
+		l.SetDown(downID, false)
+		note("target %d serves again", downID)
 	case "add-target":
 		_ = next
-		if err := l.Reconfigure(map[int][2]int{next: {20, 0}}, nil); err != nil {
+		addSz := [2]int{20, 0}
+		if prop == "C04" {
+			addSz = [2]int{400, 2600}
+		}
+		if err := l.Reconfigure(map[int][2]int{next: addSz}, nil); err != nil {
 			res.Inconcl = err.Error()
 			return finish()
 		}
@@ -216,6 +307,37 @@ func Run(w *core.WorkerCtx, k int, prop string) *core.CaseResult {
 				return finish()
 			}
 		}
+	case "reload-then-wipe-sidecar":
+		var add map[int][2]int
+		if r.Intn(2) == 0 {
+			add = map[int][2]int{next: {10, 0}}
+		}
+		if err := l.Reconfigure(add, nil); err != nil {
+			res.Inconcl = err.Error()
+			return finish()
+		}
+		c0 := l.Cycles()
+		for l.Cycles() < c0+4 && time.Now().Before(watchdog) {
+			l.ScrapeAll()
+			time.Sleep(40 * time.Millisecond)
+		}
+		// the shard that holds most
+		snap, err := l.Snapshot()
+		if err != nil {
+			res.Inconcl = "snapshot: " + err.Error()
+			return finish()
+		}
+		i := 0
+		for j, m := range snap {
+			if len(m) > len(snap[i]) {
+				i = j
+			}
+		}
+		if err := l.WipeSidecar(i); err != nil {
+			res.Inconcl = "wipe sidecar: " + err.Error()
+			return finish()
+		}
+		note("configuration reloaded (added: %v); four cycles later the sidecar of shard %d (holding %d targets) came back on an empty volume", add, i, len(snap[i]))
 	case "restart-coordinator":
 		if err := l.RestartCoordinator(); err != nil {
 			res.Inconcl = "restart coordinator: " + err.Error()
@@ -236,7 +358,11 @@ func Run(w *core.WorkerCtx, k int, prop string) *core.CaseResult {
 	res.AddSet("real_loop_faults", fault)
 	res.AddSet("real_loop_workloads", workload)
 	if workload != "steady" || fault != "none" {
-		if !waitConverged("after "+workload+"/"+fault, 80) {
+		bound := int64(80)
+		if workload == "down-then-up" {
+			bound = 120 // the explorer retries a failed probe every 5 s of wall-clock time
+		}
+		if !waitConverged("after "+workload+"/"+fault, bound) {
 			return finish()
 		}
 	}
@@ -249,6 +375,9 @@ func Run(w *core.WorkerCtx, k int, prop string) *core.CaseResult {
 		l.ScrapeAll()
 	}
 	for _, id := range l.Targets() {
+		if l.TrueTotal(id) >= spec.MaxProc {
+			continue // never assigned: too big for any shard
+		}
 		if l.Hits(id) == before[id] {
 			res.Violate(prop+"/real-loop/converged-but-not-scraped", "target %d is listed by a shard in normal state but three scrape rounds of every shard's Prometheus sent no request to it", id)
 		}
